@@ -392,6 +392,90 @@ theorem not_simplify_idem_bytes :
 example : (((x0.simplify 10).simplify 20).simplify 30).str = ((x0.simplify 10).simplify 20).str := by
   decide +kernel
 
+/-! ### the stretch goal is false as well: all settings parsable does not help
+
+    Proposed weaker statement:
+
+      theorem simplify_idem_bytes_partial (x : AStr) (nid nid' : Nat) (hw : WF x) (hne : NoEsc x.s)
+          (hp : x.isFormattingParsable = true) :
+          ((x.simplify nid).simplify nid').str = (x.simplify nid).str              -- FALSE
+
+    Witness `x1` = `"abc"` after `apply_formatting(['1','31','4','3'], 0, 1)`,
+    `apply_formatting(['32','1'], 1, 2)`, `apply_formatting(['33','2'], 2, 3)`: every setting is a
+    single known code, so every rendering is optimised.  At `b` the optimiser keeps the reset form
+    `0;32;1` (the alternative `24;23;32` is longer); `set_ansi_str` reads it into a fresh dict in the
+    order colour, bold, but puts only the changed colour behind the kept bold: the value reports
+    `1, 32`, the next rendering says `0;1;32`, and the dict of the *next* parse has the order bold,
+    colour.  The pair replaced at `c` is emitted in dict order: `33;2` the first time, `2;33` the
+    second.  What a proof of idempotence would need — the order of `current_settings` in
+    `set_ansi_str` being a function of the value parsed, not of the string — does not hold. -/
+
+def x1 : AStr :=
+  { s := "abc".toList
+    fmts := [(0, { add := [⟨1, "1".toList⟩, ⟨2, "31".toList⟩, ⟨3, "4".toList⟩, ⟨4, "3".toList⟩] }),
+             (1, { add := [⟨5, "32".toList⟩, ⟨6, "1".toList⟩],
+                   rem := [⟨1, "1".toList⟩, ⟨2, "31".toList⟩, ⟨3, "4".toList⟩, ⟨4, "3".toList⟩] }),
+             (2, { add := [⟨7, "33".toList⟩, ⟨8, "2".toList⟩], rem := [⟨5, "32".toList⟩, ⟨6, "1".toList⟩] }),
+             (3, { rem := [⟨7, "33".toList⟩, ⟨8, "2".toList⟩] })] }
+
+/-- `x1` is what three `apply_formatting` calls on the plain text produce -/
+example :
+    ((({ s := "abc".toList, fmts := [] } : AStr).applyFormatting
+        (freshSettings 1 ["1".toList, "31".toList, "4".toList, "3".toList]) (some 0) (some 1) true).applyFormatting
+        (freshSettings 5 ["32".toList, "1".toList]) (some 1) (some 2) true).applyFormatting
+        (freshSettings 7 ["33".toList, "2".toList]) (some 2) (some 3) true = x1 := by decide
+
+theorem x1_wf : WF x1 where
+  sorted := by unfold SortedKeys; decide
+  bound := by decide
+  noAddEnd := by decide
+  ok := by decide
+  nodup := by
+    intro i
+    rcases i with _ | _ | _ | _ | i
+    · decide
+    · decide
+    · decide
+    · decide
+    · simp [active, activeFrom, x1, stepPoint, eraseId]
+  closed := by decide
+  coherent := by decide
+
+example : x1.isFormattingParsable = true ∧ GroupSettings x1 ∧ NoEsc x1.s :=
+  ⟨by decide, by unfold GroupSettings; decide, by unfold NoEsc; decide⟩
+
+example : x1.str = "\x1b[1;31;4;3ma\x1b[0;32;1mb\x1b[33;2mc\x1b[m".toList := by decide +kernel
+example : (x1.simplify 10).str = "\x1b[1;31;4;3ma\x1b[0;1;32mb\x1b[33;2mc\x1b[m".toList := by decide +kernel
+example : ((x1.simplify 10).simplify 20).str = "\x1b[1;31;4;3ma\x1b[0;1;32mb\x1b[2;33mc\x1b[m".toList := by
+  decide +kernel
+
+theorem simplify_idem_bytes_partial_false :
+    ¬ (∀ (x : AStr) (nid nid' : Nat), WF x → NoEsc x.s → GroupSettings x → x.isFormattingParsable = true →
+        ((x.simplify nid).simplify nid').str = (x.simplify nid).str) := by
+  intro h
+  have := h x1 10 20 x1_wf (by unfold NoEsc; decide) (by unfold GroupSettings; decide) (by decide)
+  revert this
+  decide +kernel
+
+/-! ### what remains true at the byte level
+
+    Only the degenerate case is cheap: a value without formatting is a fixed point of `simplify()`
+    and of rendering.  (For formatted values the display-level theorems of section 6 are the
+    strongest statements that hold; see the two witnesses above.) -/
+
+theorem simplify_plain (s : Str) (nid : Nat) (hne : NoEsc s) :
+    ({ s := s, fmts := [] } : AStr).simplify nid = { s := s, fmts := [] } := by
+  rw [simplify_eq]
+  show (AStr.setAnsi s nid).1 = _
+  rw [C02.parse_plain s nid hne]
+
+theorem simplify_idem_bytes_partial (s : Str) (nid nid' : Nat) (hne : NoEsc s) :
+    ((({ s := s, fmts := [] } : AStr).simplify nid).simplify nid').str =
+      (({ s := s, fmts := [] } : AStr).simplify nid).str := by
+  rw [simplify_plain s nid hne, simplify_plain s nid' hne]
+
+example : NoEsc "plain [1m text".toList := by unfold NoEsc; decide
+
 end C03
 
 #print axioms C03.render_wellFormed
@@ -421,3 +505,5 @@ end C03
 #print axioms C03.simplify_idem_bytes_false
 #print axioms C03.simplified_fixed_point_false
 #print axioms C03.not_simplify_idem_bytes
+#print axioms C03.simplify_idem_bytes_partial_false
+#print axioms C03.simplify_idem_bytes_partial
